@@ -4,7 +4,7 @@
 #   demo fails with the patch, whole test suite still at baseline (430 passed / 3 known failures),
 #   demo passes without the patch.  Writes /tmp/seed/<PID>/out/<VARIANT>.confirm.json
 PID=$1; V=$2
-WT=/tmp/seed/$PID/wt; OUT=/tmp/seed/$PID/out
+ROOT=${SEEDROOT:-/tmp/seed}; WT=$ROOT/$PID/wt; OUT=$ROOT/$PID/out
 PATCH=$OUT/$V.patch.diff; DEMO=$OUT/$V.demo.py
 cd $WT || exit 9
 git checkout -q -- . ; git clean -fdq -e '*.so' -e 'whatshap/_version.py' -e '*.cpp' -e build 2>/dev/null
